@@ -2,7 +2,7 @@
 
 LLSYM on src/raw_ctr.c (everything: CTR_start_operation, create_counter_blocks, increment_be/le,
 update_keystream, CTR_encrypt/decrypt, CTR_stop_operation) with cipher->encrypt = uninterpreted E;
-LLSYM on src/chacha20.c counter handling; PYSYM on _mode_ctr._create_ctr_cipher / Util.Counter /
+LLSYM on src/chacha20.c (seek/encrypt sequences, sticky exhaustion); PYSYM on
 ChaCha20.seek / CCM / GCM length limits.
 """
 from vlib.env import Harness
@@ -110,8 +110,213 @@ def run_ctr_midlife(env, sh):
     K.check_memory_safe()
 
 
+# ---------------------------------------------------------------- ChaCha20 block counter (src/chacha20.c)
+
+ERR_MAX_DATA = 10
+KEYC = bytes(range(1, 33))
+CH_ST = 'struct.stream_state'
+
+
+def _ks_via_seek(env, K, nonce, blk):
+    """reference keystream block: what the real code returns for a FRESH object after a direct seek to
+    block index blk.  (That single block equals RFC 8439 chacha20_block(key, blk, nonce) for every key, nonce
+    and counter: decided separately by C02/chacha_block.)  Comparing the sequence under test with direct
+    seeks keeps both sides in the same term language, so the solver is not asked to prove two differently
+    written 20-round ARX circuits equivalent (measured: unknown after 150 s even with 4 free bits)."""
+    slot = K.ptr_slot()
+    nl = len(nonce)
+    r = K.call('chacha20_init', slot, K.buf(KEYC, False, 'key'), 32, K.buf(nonce, False, 'nonce'), nl)
+    st = K.deref(slot)
+    hi, lo = blk
+    r = K.call('chacha20_seek', st, hi, lo, 0)
+    env.check(r == 0, 'reference seek succeeds')
+    out = K.out(64, 'ref')
+    r = K.call('chacha20_encrypt', st, K.buf(bytes(64), False, 'z'), out, 64)
+    env.check(r == 0, 'reference block produced')
+    ks = K.read(out, 64)
+    K.call('chacha20_destroy', st)
+    return ks
+
+
+def run_chacha_seq(env, sh):
+    """seek(position) then a sequence of encrypt() calls on the real C: every call either returns data that is
+    the keystream for its stream position, or fails; it must fail when the range needs a block index beyond
+    the counter, may fail only when the range reaches the last block index, and once it has failed every
+    later non-empty call fails too (no silent wrap-around to block 0) until a successful seek()"""
+    P = env.P
+    K = kern.kernel(env, 'chacha20.c')
+    nl = sh['nlen']
+    nonce = bytes(range(0x40, 0x40 + nl))
+    slot = K.ptr_slot()
+    env.check(K.call('chacha20_init', slot, K.buf(KEYC, False, 'key'), 32, K.buf(nonce, False, 'nonce'), nl) == 0, 'init ok')
+    st = K.deref(slot)
+    W = 32 if nl == 12 else 64
+    LIMIT = 1 << W                     # number of distinct block indexes
+    hi0, lo0 = 0, 0
+    blk0, rel = 0, 0                   # stream position of the next byte == 64 * blk0 + rel  (blk0 may be symbolic, rel is concrete)
+    dead = False
+    for step, act in enumerate(sh['acts']):
+        if act[0] == 'seek':
+            kind = act[1]
+            if kind == 'sym':
+                lo = env.int('lo%d' % step, 32)
+                hi = env.int('hi%d' % step, 32) if nl == 8 else 0
+                # general position: no carry out of the low counter word within this shape (the carry and the
+                # end of the counter range are the 'win' shapes)
+                env.assume(lo < 0xFFFFFFF0)
+            elif kind[0] == 'win':
+                # block indexes next to a carry boundary: base + a solver-enumerated offset
+                import operator
+                lo = kind[1] + operator.index(env.int('lo%d' % step, kind[3]))
+                hi = kind[2] + operator.index(env.int('hi%d' % step, 1)) if nl == 8 else 0
+            else:
+                lo, hi = kind[1], kind[0]
+            off = act[2]
+            blk = (hi << 32) + lo
+            r = K.call('chacha20_seek', st, hi, lo, off)
+            # seeking generates the block: the last index is refused by this implementation (conservative)
+            env.check(env.Or(r == 0, blk == LIMIT - 1), 'seek(step %d) to a block below the last one succeeds' % step)
+            if r != 0:                 # forks on symbolic r
+                dead = True
+                continue
+            dead = False
+            blk0, rel = blk, off
+            hi0, lo0 = hi, lo
+        else:
+            n = act[1]
+            data = env.bytes('d%d' % step, n)
+            out = K.out(n, 'out%d' % step)
+            r = K.call('chacha20_encrypt', st, K.buf(data, False, 'in%d' % step), out, n)
+            if n == 0:
+                env.check(r == 0, 'empty call succeeds')
+                continue
+            last_needed = blk0 + (rel + n - 1) // 64
+            if dead:
+                env.check(r != 0, 'step %d: after a failure every later call fails (the counter does not silently restart)' % step)
+                continue
+            env.check(env.Or(r == 0, last_needed >= LIMIT - 1), 'step %d: no error while the range stays below the last block index' % step)
+            env.check(env.Or(r != 0, last_needed < LIMIT), 'step %d: error when a block index beyond the counter range is needed' % step)
+            if r != 0:
+                dead = True
+                continue
+            first, skip = blk0 + rel // 64, rel % 64
+            nb = (skip + n + 63) // 64
+            def words(j):
+                # (high word, low word) of block index first + j; symbolic positions stay below a carry (assumed above)
+                if isinstance(lo0, int) and isinstance(hi0, int):
+                    b = (hi0 << 32) + lo0 + rel // 64 + j
+                    return (b >> 32) & 0xFFFFFFFF, b & 0xFFFFFFFF
+                return hi0, lo0 + rel // 64 + j
+            ks = P.concat(*[_ks_via_seek(env, K, nonce, words(j)) for j in range(nb)])
+            env.check(K.read(out, n) == P.xor(data, ks[skip:skip + n]), 'step %d: output == data xor keystream for its stream position' % step)
+            rel += n
+    K.check_memory_safe()
+    K.call('chacha20_destroy', st)
+
+
+def run_chacha_seek_py(env, sh):
+    """ChaCha20.seek() for a symbolic position: accepted exactly when the block index fits the counter, and then
+    encrypt() returns the key stream for that position (Python glue on top of the C contract model)"""
+    from Crypto.Cipher import ChaCha20
+    P = env.P
+    nl, off, n = sh['nlen'], sh['off'], sh['n']
+    key = env.bytes('key', 32)
+    nonce = env.bytes('nonce', nl)
+    blk = env.int('blk', sh['bits'], signed=sh.get('signed', False))
+    if 'base' in sh:
+        blk = blk + sh['base']
+    pos = blk * 64 + off
+    c = ChaCha20.new(key=key, nonce=nonce)
+    W = 64 if nl == 8 else 32
+    LIMIT = 1 << W
+    data = env.bytes('data', n)
+    try:
+        c.seek(pos)
+        ok = True
+    except (ValueError, OverflowError):
+        ok = False
+    last = blk + (off + n - 1) // 64
+    env.check(env.Or(not ok, env.And(blk >= 0, blk < LIMIT)), 'seek() to a position outside the key stream is refused')
+    env.check(env.Or(ok, blk < 0, blk >= LIMIT - 1), 'seek() to a block below the last one is accepted')
+    if not ok:
+        return
+    try:
+        out = c.encrypt(data)
+    except (ValueError, OverflowError):
+        env.check(last >= LIMIT - 1, 'encrypt() after seek() fails only when the range reaches the end of the key stream')
+        return
+    env.check(last < LIMIT, 'encrypt() beyond the counter range raises')
+    k2, n2 = M.chacha_params(P, key, nonce)
+    # counters fit the counter field on this path (checked above): the reference needs no reduction
+    exp = M.chacha_stream(P, k2, n2, blk, data, skip=off)
+    env.check(out == exp, 'output == key stream at the requested position')
+
+
+def run_ccm_limit(env, sh):
+    """CCM: a declared message length that does not fit the q = 15 - len(nonce) length octets is refused at
+    construction, whether or not assoc_len is declared too; an undeclared message is checked when it arrives"""
+    from Crypto.Cipher import AES
+    nl = sh['nlen']
+    q = 15 - nl
+    key = env.bytes('key', 16)
+    nonce = env.bytes('nonce', nl)
+    if sh['kind'] == 'declared':
+        m = env.int('msg_len', sh['bits'])
+        kw = dict(msg_len=m)
+        if sh.get('assoc') is not None:
+            kw['assoc_len'] = sh['assoc']
+        try:
+            AES.new(key, AES.MODE_CCM, nonce=nonce, **kw)
+            ok = True
+        except ValueError:
+            ok = False
+        env.check(env.eqv(ok, m < (1 << (8 * q))), 'declared msg_len accepted exactly when it fits %d length octets' % q)
+        return
+    # undeclared: the (single) piece is measured when it arrives
+    n = sh['n']
+    ci = AES.new(key, AES.MODE_CCM, nonce=nonce)
+    if sh.get('aad'):
+        ci.update(env.bytes('aad', sh['aad']))
+    data = bytes(n)
+    try:
+        if sh.get('dec'):
+            ci.decrypt(data)
+        else:
+            ci.encrypt(data)
+        ok = True
+    except ValueError:
+        ok = False
+    env.check(ok == (n < (1 << (8 * q))), 'undeclared message of %d bytes is %s' % (n, 'accepted' if n < (1 << (8 * q)) else 'refused'))
+
+
+def run_gcm_limit(env, sh):
+    """GCM: one encrypt() step from an ARBITRARY mid-life message byte count: ValueError exactly when the total
+    exceeds 2^39 - 256 bits = 2^36 - 32 bytes (NIST SP 800-38D s5.2.1.1)"""
+    from Crypto.Cipher import AES
+    key = env.bytes('key', 16)
+    nonce = env.bytes('nonce', 12)
+    ci = AES.new(key, AES.MODE_GCM, nonce=nonce)
+    done = env.int('done', 40)
+    LIM = (2 ** 39 - 256) // 8
+    # SP 800-38D counts bits; the library compares its byte count with 2^39 - 256, i.e. allows 8 times the
+    # standard's limit -- reported by the first check below if so
+    env.assume(done <= 2 ** 39 - 256)
+    ci._msg_len = done
+    n = sh['n']
+    data = env.bytes('d', n)
+    try:
+        ci.encrypt(data)
+        ok = True
+    except ValueError:
+        ok = False
+    env.check(env.eqv(ok, done + n <= sh['limit_bytes']), 'encrypt() accepted exactly while the total stays within the limit')
+
+
 HARNESSES = dict(ctr_stream=Harness('ctr_stream', run_ctr_stream, timeout_ms=120000),
-                 ctr_midlife=Harness('ctr_midlife', run_ctr_midlife))
+                 ctr_midlife=Harness('ctr_midlife', run_ctr_midlife),
+                 chacha_seq=Harness('chacha_seq', run_chacha_seq, timeout_ms=120000),
+                 chacha_seek_py=Harness('chacha_seek_py', run_chacha_seek_py),
+                 ccm_limit=Harness('ccm_limit', run_ccm_limit), gcm_limit=Harness('gcm_limit', run_gcm_limit))
 
 
 def shapes(tier):
@@ -150,14 +355,52 @@ def shapes(tier):
         for cl in (1, 2, 7, 8, 9, 15, 16) if bl == 16 else (1, 7, 8):
             for n in (1, bl, 8 * bl + 1):
                 jobs.append(('ctr_midlife', dict(bl=bl, clen=cl, n=n)))
+    # ---- ChaCha20 block counter: real C, sequences of seek()/encrypt()
+    top = 0xFFFFFFFC
+    for nl in (12, 8):
+        jobs.append(('chacha_seq', dict(nlen=nl, acts=[['enc', 64], ['seek', 'sym', 3], ['enc', 70], ['enc', 64]])))
+        # next to the carry out of the low word / the end of the counter range, with recovery by seek()
+        jobs.append(('chacha_seq', dict(nlen=nl, acts=[['enc', 3], ['seek', ['win', top, 0xFFFFFFFE, 2], 60], ['enc', 70], ['enc', 64], ['enc', 1],
+                                                       ['seek', [0, 5], 0], ['enc', 5]])))
+        jobs.append(('chacha_seq', dict(nlen=nl, acts=[['seek', ['win', top, 0, 2], 0], ['enc', 64], ['enc', 64], ['enc', 64], ['enc', 0], ['enc', 64]])))
+        jobs.append(('chacha_seq', dict(nlen=nl, acts=[['enc', 130], ['enc', 0], ['enc', 1], ['seek', [0, 0], 63], ['enc', 2]])))
+        if th:
+            jobs.append(('chacha_seq', dict(nlen=nl, acts=[['seek', ['win', top, 0xFFFFFFFE, 2], 63], ['enc', 1], ['enc', 1], ['enc', 128], ['enc', 64]])))
+            jobs.append(('chacha_seq', dict(nlen=nl, acts=[['seek', 'sym', 0], ['enc', 200], ['seek', 'sym', 7], ['enc', 64]])))
+    # ---- ChaCha20.seek(): Python glue over the C contract for every position (also far outside the key stream)
+    for nl in (8, 12, 24):
+        for off, n in ((0, 64), (3, 70), (63, 2)):
+            for bits in (31, 33, 40, 65, 72, 130):
+                jobs.append(('chacha_seek_py', dict(nlen=nl, off=off, n=n, bits=bits)))
+            jobs.append(('chacha_seek_py', dict(nlen=nl, off=off, n=n, bits=8, signed=True)))
+            jobs.append(('chacha_seek_py', dict(nlen=nl, off=off, n=n, bits=3, base=(1 << (64 if nl == 8 else 32)) - 4)))
+    # ---- CCM / GCM length limits
+    for nl in range(7, 14):
+        q = 15 - nl
+        for assoc in (None, 0, 5):
+            jobs.append(('ccm_limit', dict(nlen=nl, kind='declared', bits=8 * q + 6, assoc=assoc)))
+    for dec in (False, True):
+        for aad in (0, 3):
+            jobs.append(('ccm_limit', dict(nlen=13, kind='undeclared', n=65536, dec=dec, aad=aad)))
+            jobs.append(('ccm_limit', dict(nlen=13, kind='undeclared', n=40, dec=dec, aad=aad)))
+    for n in (0, 1, 16, 17, 33):
+        jobs.append(('gcm_limit', dict(n=n, limit_bytes=2 ** 36 - 32)))
     return jobs
 
 
 BOUNDS = dict(ctr="block_len 8/16; counter_len 1..block_len; both endiannesses; prefix 0/middle/max; symbolic initial counter "
               "block and key; <= 5 calls of <= 9 blocks+1; narrow (1-byte) counters run to and across the wrap (4097 bytes); "
               "mid-life: arbitrary 128-bit byte count",
-              outside=["key/nonce reuse across objects", "the block cipher itself"])
+              chacha="real C: sequences of <= 7 seek()/encrypt() calls, lengths 0..200; block index fully symbolic below a carry of the low counter word, "
+              "and enumerated by the solver in windows of 4 next to the low-word carry and the end of the 32/64-bit counter range; "
+              "Python seek(): every position of up to 136 bits incl. negative ones",
+              limits="CCM: every declared msg_len up to 2^(8q+6) for every nonce length, with/without assoc_len; undeclared 64 KiB piece with a 13-byte nonce; "
+              "GCM: one encrypt() step of 0..33 bytes from an arbitrary mid-life byte count",
+              outside=["key/nonce reuse across objects", "the block cipher itself", "GCM decrypt() has no length check of its own (bounded only by the inner CTR counter): observed, not part of the anchored mechanism",
+                       "the last ChaCha20 block index is refused by the implementation (conservative off-by-one): allowed by the oracle"])
 ASSUMPTIONS = ["cipher->encrypt uninterpreted (E, bijective per key)", "malloc succeeds",
+               "chacha_seq compares the sequence under test with the real code's own output after a direct seek on a fresh object; that single block == RFC 8439 is decided in C02/chacha_block",
+               "chacha_seek_py / ccm / gcm limits run the Python over the C contract models of vlib/pysym/natives.py (ctypes c_ulong truncation modelled)",
                "mid-life states satisfy the representation invariant 'bytes so far <= limit' (established by start, preserved by a successful call)"]
 EXPLANATION = ("bounded model checking of the real C state machine of src/raw_ctr.c from LLVM IR (LLSYM): symbolic key, counter "
                "block and data; z3 decides that every keystream block is E of the counter block for its position and that the "
